@@ -138,6 +138,9 @@ def run_impl(raw, parsed, codec, si0, sync, ops):
                 w.write_block(op[3])
             elif op[0] == "reopen":
                 w.flush()
+                # the stream may have been read in between: any non-zero position must do (the writer seeks to the end)
+                end = fo.tell()
+                fo.seek([end, 1, min(end, len(hdr)), max(1, end // 2), max(1, end - 3)][op[1] % 5])
                 w = Writer(fo, OTHER_SCHEMA if op[2] == "other" else raw, codec=op[3], sync_interval=op[1],
                            metadata=(dict(op[4]) if op[4] else None), sync_marker=b"\x07" * 16)
         except Exception as e:
